@@ -15,7 +15,10 @@ import (
 	"math/rand"
 	"os"
 	"strconv"
+	"sync"
+	"sync/atomic"
 	"testing"
+	"time"
 
 	"github.com/maypok86/otter/v2/internal/deque"
 	"github.com/maypok86/otter/v2/internal/generated/node"
@@ -62,6 +65,10 @@ type polTask struct {
 	n, old int
 }
 
+type encFunc func(v any) error
+
+func (f encFunc) Encode(v any) error { return f(v) }
+
 func clampI64(v uint64) int64 {
 	x := int64(v) //nolint:gosec // wrapped totals are logged as negative numbers
 	if x > 1<<30 {
@@ -94,7 +101,34 @@ func TestVerifPolicy(t *testing.T) {
 	defer f.Close()
 	bw := bufio.NewWriterSize(f, 1<<20)
 	defer bw.Flush()
-	enc := json.NewEncoder(bw)
+	enc0 := json.NewEncoder(bw)
+	// a call of the code under test that never returns (a deque linked into a cycle) is an observation as well: the records
+	// logged so far are flushed and judged, the run ends with a "panic" marker
+	var wmu sync.Mutex
+	var progress atomic.Int64
+	enc := encFunc(func(v any) error {
+		wmu.Lock()
+		defer wmu.Unlock()
+		progress.Add(1)
+		return enc0.Encode(v)
+	})
+	go func() {
+		last, stalled := int64(-1), 0
+		for {
+			time.Sleep(500 * time.Millisecond)
+			if cur := progress.Load(); cur != last {
+				last, stalled = cur, 0
+				continue
+			}
+			if stalled++; stalled >= 10 {
+				wmu.Lock()
+				_ = enc0.Encode(polRec{Op: "panic", F: make([]int, polN), RD: []int{0, 0}, Evs: [][]int{},
+					Post: polPost{W: []int{}, P: []int{}, T: []int{}, Len: []int{0, 0, 0}, Tail: []int{0, 0, 0}, St: make([]int, polN), Q: make([]int, polN), Cyc: 1}})
+				_ = bw.Flush()
+				os.Exit(0)
+			}
+		}
+	}()
 	rng := rand.New(rand.NewSource(seed))
 	nm := node.NewManager[int, int](node.Config{WithWeight: true})
 
